@@ -50,8 +50,8 @@ Definition MEv (st : state) (e t x : Z) : bool := c_visible_to (e_chain st x) e 
 Definition MEs (st : state) (x : Z) : bool := c_visible_at (e_chain st x) (st_epoch st).
 Definition in_dbe (d : db) (x : Z) : bool := match d_edge d x with Some _ => true | None => false end.
 
-Definition set_eqb (a b : list Z) : bool := forallb (fun x => memz x b) a && forallb (fun x => memz x a) b.
-Definition labels_agree (st : state) (d : db) (n : Z) : bool := set_eqb (n_labels st n) (labels_of d n).
+Definition labels_agree (st : state) (d : db) (n : Z) : bool :=
+  list_eqb Z.eqb (isort Z.leb (n_labels st n)) (isort Z.leb (labels_of d n)).
 Definition props_agree (st : state) (d : db) (n : Z) : bool :=
   list_eqb eqbkv (isort lebkv (n_props st n)) (isort lebkv (props_of d n)).
 
@@ -163,7 +163,7 @@ Definition mut_class (st : state) (sp : sstate) (o : op) : Z :=
       else if detach && sp_match d m id then
         (* the edges the specification detaches vs the edges [delete_node_edges] really deletes *)
         first_class (fun x =>
-            let adj := existsb (fun p => snd p =? x) (edges_from st id Out ++ edges_from st id In) in
+            let adj := existsb (fun p => snd p =? x) (edges_from st id Out ++ edges_from st id Inc) in
             let ci := match d_edge d x with Some (a, b, _) => (a =? id) || (b =? id) | None => false end in
             let cm := adj && MEs st x in
             if Bool.eqb cm ci then 0
@@ -280,3 +280,23 @@ Definition c02_k (c : Z) (ops : list op) (outs : list out) (ds : list (Z * Z * Z
 Definition c02_checked (ops : list op) (outs : list out) (ds : list (Z * Z * Z)) : Z :=
   Z.of_nat (length (filter (fun p => match check_pair ops outs (fst p) (snd p) with Some _ => true | None => false end)
                            (dump_pairs ds))).
+
+(** ** dumps (used by the witnesses of the C02 theorems; the harness builds its dumps the same way) *)
+Definition node_dump_kinds (n : Z) : list kind :=
+  [GetNode n; Neigh n Out; Neigh n Inc; Degree n; StoreProp n 0; StoreProp n 1].
+Definition dump_kinds (n0 n1 e0 e1 : Z) (global : bool) : list kind :=
+  flat_map node_dump_kinds (map (fun i => n0 + i) (range (n1 - n0)))
+  ++ map (fun i => GetEdge (e0 + i)) (range (e1 - e0))
+  ++ (if global
+      then flat_map (fun l => [LabelScan l; StoreLabel l; ProjProp l 0; ProjProp l 1]) [0; 1; 2]
+           ++ [AllScan; CountAll; Expand SelAny Out None; Expand SelAny Out (Some 0); Expand (SelLabel 0) Out None;
+               TripleQ (None, None, None); DbCounts]
+      else []).
+Definition OBSERVER : Z := 9.
+(** [pre] (starting graph), dump, [tx], dump; (nn1, ne1) / (nn2, ne2): ids handed out before / after [tx] *)
+Definition with_dumps (pre tx : list op) (nn1 ne1 nn2 ne2 : Z) : list op * list (Z * Z * Z) :=
+  let d1 := dump_kinds 0 nn1 0 ne1 true in
+  let d2 := d1 ++ dump_kinds nn1 nn2 ne1 ne2 false in
+  (pre ++ map (Read OBSERVER) d1 ++ tx ++ map (Read OBSERVER) d2,
+   [(Z.of_nat (length pre), Z.of_nat (length d1), 0);
+    (Z.of_nat (length pre + length d1 + length tx), Z.of_nat (length d2), Z.of_nat (length d1))]).
